@@ -134,6 +134,65 @@ theorem contChk_weaken (d0 dA : Disk Content MetaRec WalRec LogRec) (m1 : MetaRe
   | fsyncBegin _ _ => trivial
   | fsyncEnd _ _ => trivial
 
+/-- **the crash theorem with the rollback log for concurrent traces, started in a state with pending effects** (helper
+form of `Nomt.C04.T4_9b…`): `s0` is the concurrent state the operation starts in — durable disk `s0.dur`, the old state —
+whose pending effects satisfy `AllowedPreL'` (e.g. the un-synced WAL truncation of the previous sync). -/
+theorem conc_sync_crash_atomic_log_from
+    (s0 : CState Content MetaRec WalRec LogRec)
+    (hvol0s : ∀ e ∈ s0.volEffs, AllowedPreL' P L s0.dur e)
+    (hinert : ∀ b, htView P s0.dur b = s0.dur.pages File.fHt b)
+    (cpre crest : List (CEv Content MetaRec WalRec LogRec)) (id : Nat) (m1 : MetaRec) (w1 : WalRec)
+    (hord : cAll ordChk 0 s0 (cpre ++ CEv.effBegin id (.setMeta m1) :: crest))
+    (hcont : cAll (contChk (AllowedPreL' P L s0.dur) (contPostL P L (crun s0 cpre).dur m1 w1)) 0 s0
+      (cpre ++ CEv.effBegin id (.setMeta m1) :: crest))
+    (hwal : (crun s0 cpre).dur.wal = some w1)
+    (hseq : P.walSeqn w1 = P.seqn m1) :
+    (∀ cp, cp <+: cpre ++ CEv.effBegin id (.setMeta m1) :: crest →
+       ∀ img, IsCImage (crun s0 cp) img →
+         absOfL P L img = absOfL P L s0.dur ∨
+         absOfL P L img = (absNew P (crun s0 cpre).dur m1 w1, absLog L m1 (crun s0 cpre).dur.log)) ∧
+    (phRun 0 s0 (cpre ++ CEv.effBegin id (.setMeta m1) :: crest) = 2 →
+       ∀ img, IsCImage (crun s0 (cpre ++ CEv.effBegin id (.setMeta m1) :: crest)) img →
+         absOfL P L img = (absNew P (crun s0 cpre).dur m1 w1, absLog L m1 (crun s0 cpre).dur.log)) := by
+  have hacc : cAll (accChk (AllowedPreL' P L s0.dur) (okPostL P L (crun s0 cpre).dur m1 w1)) 0 s0
+      (cpre ++ CEv.effBegin id (.setMeta m1) :: crest) :=
+    cAll_mono _ _ (fun ph s ev h => acc_of_ord_contL P L s0.dur _ m1 w1 ph s ev h.1 h.2) _ _ _
+      (cAll_and _ _ _ _ _ hord hcont)
+  obtain ⟨hpre, hfl, hdur, hshape⟩ :=
+    accepted_bridge_from (AllowedPreL' P L s0.dur) (okPostL P L (crun s0 cpre).dur m1 w1)
+      (okPostL_stab P L _ m1 w1) s0 hvol0s cpre crest id m1 hacc
+  have hwal' : (run ⟨s0.dur, []⟩ (linFrom s0 cpre)).dur.wal = some w1 := by rw [hdur]; exact hwal
+  have hvol0 : ∀ e ∈ ([] : List (Eff Content MetaRec WalRec LogRec)), e = Eff.walSet none := fun e he => by cases he
+  have key : ∀ cp, cp <+: cpre ++ CEv.effBegin id (.setMeta m1) :: crest →
+      ∀ img, IsCImage (crun s0 cp) img →
+        (absOfL P L img = absOfL P L s0.dur ∨
+          absOfL P L img = (absNew P (crun s0 cpre).dur m1 w1, absLog L m1 (crun s0 cpre).dur.log)) ∧
+        (phRun 0 s0 cp = 2 →
+          absOfL P L img = (absNew P (crun s0 cpre).dur m1 w1, absLog L m1 (crun s0 cpre).dur.log)) := by
+    intro cp hcp img himg
+    rw [isCImage_linFrom] at himg
+    have hs := hshape cp hcp
+    generalize linFrom s0 cp = l at hs himg
+    generalize phRun 0 s0 cp = ph at hs
+    cases hs with
+    | before _ h =>
+      exact ⟨Or.inl (phaseAL'_images P L s0.dur hinert [] hvol0 l h img himg), fun h0 => by omega⟩
+    | issued =>
+      have h41 := (sync_crash_atomic_log_pending P L s0.dur hinert [] hvol0 (linFrom s0 cpre) [] m1 w1 hpre hfl hwal' hseq
+        trivial).1 (linFrom s0 cpre ++ [Ev.eff (.setMeta m1)]) ⟨[Ev.fsync File.fMeta], by simp⟩ img himg
+      rw [hdur] at h41
+      exact ⟨h41, fun h0 => by omega⟩
+    | durable post h =>
+      have hpost : PostOKL P L (run ⟨s0.dur, []⟩ (linFrom s0 cpre)).dur m1 w1
+          ⟨applyEff (run ⟨s0.dur, []⟩ (linFrom s0 cpre)).dur (.setMeta m1), []⟩ post := by
+        rw [hdur]; exact postG_postOKL P L _ m1 w1 post _ h
+      have h41 := (sync_crash_atomic_log_pending P L s0.dur hinert [] hvol0 (linFrom s0 cpre) post m1 w1 hpre hfl hwal' hseq
+        hpost).2 img himg
+      rw [hdur] at h41
+      exact ⟨Or.inr h41, fun _ => h41⟩
+  exact ⟨fun cp hcp img himg => (key cp hcp img himg).1,
+    fun hph img himg => (key _ (List.prefix_refl _) img himg).2 hph⟩
+
 /-- **the crash theorem with the rollback log for concurrent traces** (helper form of `Nomt.C04.T4_9…`) -/
 theorem conc_sync_crash_atomic_log
     (d0 : Disk Content MetaRec WalRec LogRec)
@@ -150,45 +209,8 @@ theorem conc_sync_crash_atomic_log
          absOfL P L img = (absNew P (crun (cinit d0) cpre).dur m1 w1, absLog L m1 (crun (cinit d0) cpre).dur.log)) ∧
     (phRun 0 (cinit d0) (cpre ++ CEv.effBegin id (.setMeta m1) :: crest) = 2 →
        ∀ img, IsCImage (crun (cinit d0) (cpre ++ CEv.effBegin id (.setMeta m1) :: crest)) img →
-         absOfL P L img = (absNew P (crun (cinit d0) cpre).dur m1 w1, absLog L m1 (crun (cinit d0) cpre).dur.log)) := by
-  have hacc : cAll (accChk (AllowedPreL' P L d0) (okPostL P L (crun (cinit d0) cpre).dur m1 w1)) 0 (cinit d0)
-      (cpre ++ CEv.effBegin id (.setMeta m1) :: crest) :=
-    cAll_mono _ _ (fun ph s ev h => acc_of_ord_contL P L d0 _ m1 w1 ph s ev h.1 h.2) _ _ _
-      (cAll_and _ _ _ _ _ hord hcont)
-  obtain ⟨hpre, hfl, hdur, hshape⟩ :=
-    accepted_bridge (AllowedPreL' P L d0) (okPostL P L (crun (cinit d0) cpre).dur m1 w1)
-      (okPostL_stab P L _ m1 w1) d0 cpre crest id m1 hacc
-  have hwal' : (run ⟨d0, []⟩ (lin d0 cpre)).dur.wal = some w1 := by rw [hdur]; exact hwal
-  have hvol0 : ∀ e ∈ ([] : List (Eff Content MetaRec WalRec LogRec)), e = Eff.walSet none := fun e he => by cases he
-  have key : ∀ cp, cp <+: cpre ++ CEv.effBegin id (.setMeta m1) :: crest →
-      ∀ img, IsCImage (crun (cinit d0) cp) img →
-        (absOfL P L img = absOfL P L d0 ∨
-          absOfL P L img = (absNew P (crun (cinit d0) cpre).dur m1 w1, absLog L m1 (crun (cinit d0) cpre).dur.log)) ∧
-        (phRun 0 (cinit d0) cp = 2 →
-          absOfL P L img = (absNew P (crun (cinit d0) cpre).dur m1 w1, absLog L m1 (crun (cinit d0) cpre).dur.log)) := by
-    intro cp hcp img himg
-    rw [isCImage_lin] at himg
-    have hs := hshape cp hcp
-    generalize lin d0 cp = l at hs himg
-    generalize phRun 0 (cinit d0) cp = ph at hs
-    cases hs with
-    | before _ h =>
-      exact ⟨Or.inl (phaseAL'_images P L d0 hinert [] hvol0 l h img himg), fun h0 => by omega⟩
-    | issued =>
-      have h41 := (sync_crash_atomic_log_pending P L d0 hinert [] hvol0 (lin d0 cpre) [] m1 w1 hpre hfl hwal' hseq
-        trivial).1 (lin d0 cpre ++ [Ev.eff (.setMeta m1)]) ⟨[Ev.fsync File.fMeta], by simp⟩ img himg
-      rw [hdur] at h41
-      exact ⟨h41, fun h0 => by omega⟩
-    | durable post h =>
-      have hpost : PostOKL P L (run ⟨d0, []⟩ (lin d0 cpre)).dur m1 w1
-          ⟨applyEff (run ⟨d0, []⟩ (lin d0 cpre)).dur (.setMeta m1), []⟩ post := by
-        rw [hdur]; exact postG_postOKL P L _ m1 w1 post _ h
-      have h41 := (sync_crash_atomic_log_pending P L d0 hinert [] hvol0 (lin d0 cpre) post m1 w1 hpre hfl hwal' hseq
-        hpost).2 img himg
-      rw [hdur] at h41
-      exact ⟨Or.inr h41, fun _ => h41⟩
-  exact ⟨fun cp hcp img himg => (key cp hcp img himg).1,
-    fun hph img himg => (key _ (List.prefix_refl _) img himg).2 hph⟩
+         absOfL P L img = (absNew P (crun (cinit d0) cpre).dur m1 w1, absLog L m1 (crun (cinit d0) cpre).dur.log)) :=
+  conc_sync_crash_atomic_log_from P L (cinit d0) (fun e he => by cases he) hinert cpre crest id m1 w1 hord hcont hwal hseq
 
 /-- **recovery is idempotent under interruption, for concurrent recovery traces** (helper form of `Nomt.C03.T3_3…`):
 `d` is an image whose WAL `w` carries the sequence number of its meta page (so recovery redoes it).  A concurrent
